@@ -110,7 +110,9 @@ H1 == (StrLen + 1) \div 2
 H2 == StrLen \div 2
 Odd == << <<"I","n","f","i","n","i","t","y">>, <<"-","I","n","f","i","n","i","t","y">>, <<"N","a","N">>, <<"0","x","1","0">>, <<"1","e","3">>,
           <<"1","E","3">>, <<"tab","1","2","cr">>, <<"1","sp","2">>, <<"-","sp","1">>, <<"1","2","3","4","5","6","7">>, <<"0","0","1",".","5","0">>,
-          <<"-","0">>, <<"-","0",".","0">>, <<"0",".","1","2","5">>, <<"w2","1">>, <<"1","w4">>, <<"1","cm">> >>
+          <<"-","0">>, <<"-","0",".","0">>, <<"0",".","1","2","5">>, <<"w2","1">>, <<"1","w4">>, <<"1","cm">>,
+          \* numerals of more than 400 digits: well-formed, beyond the range of a double - the nearest value is an infinity
+          <<"1","Z400">>, <<"-","9","Z400">>, <<"sp","7","Z400","nl">> >>
 
 (***************************************************************************)
 (* the chooser                                                             *)
@@ -220,7 +222,8 @@ StrAB == IF a <= Len(SeqsOf(NumAlpha, H1)) THEN PoolA[a] \o PoolB[b] ELSE PoolA[
 C04sLaws == (Ready /\ Family = "C04s") =>
   LET s == StrAB n == StrToNum(s) IN
   /\ (\E i \in 1..Len(s) : s[i] \in {"+", "e", "x", "I", "nbsp"}) => IsNan(n)          \* exponents, '+', hex, words, non-XML spaces
-  /\ (~IsNan(n) /\ ~IsUnk(n)) => IsUNumeral(LET t == TrimWS(s) IN IF t[1] = "-" THEN Tail(t) ELSE t)
+  /\ (~IsNan(n) /\ ~IsUnk(n) /\ ~HasZ(s)) => IsUNumeral(LET t == TrimWS(s) IN IF t[1] = "-" THEN Tail(t) ELSE t)
+  /\ HasZ(s) => (IsInf(n) \/ IsUnk(n))
   /\ EvalIn(Env1(StrV(s)), F1(S_boolean, XVar)) = BoolV(s # <<>>)
 C04sCases == LET s == StrAB env == Env1(StrV(s)) IN
   << Obj(env, F1(S_number, XVar)), Obj(env, Bin("add", XVar, IntE(0))), Obj(env, Bin("eq", XVar, IntE(1))), Obj(env, F1(S_boolean, XVar)),
